@@ -667,3 +667,63 @@ silent('c01-instances-accumulator-form', ['C01', 'C02'],
         for dependency_task in find_tasks_in_param(getattr(task, field.name)):
             found.append(dependency_task)
     return found"""))
+
+
+# -- sweeps (rules/sweeps.py) ------------------------------------------------------------------------------------------
+LAB = 'labtech/lab.py'
+fire('sweep-loop-fresh-hoisted-init', ['C05', 'C03', 'C01'], 'SWEEP.LOOP-FRESH',
+     (LAB, 'TaskState.process_tasks', "            dependency_tasks: OrderedSet[Task] = OrderedSet()\n", ''),
+     (LAB, 'TaskState.process_tasks', "        for task in tasks:\n", "        dependency_tasks: OrderedSet[Task] = OrderedSet()\n        for task in tasks:\n"))
+silent('sweep-loop-fresh-if-else', ['C05', 'C03', 'C01'],
+       (LAB, 'TaskState.process_tasks', """            dependency_tasks: OrderedSet[Task] = OrderedSet()
+            if not self.coordinator.use_cache(task):
+                dependency_tasks = get_direct_dependencies(task)
+""", """            if not self.coordinator.use_cache(task):
+                dependency_tasks = get_direct_dependencies(task)
+            else:
+                dependency_tasks = OrderedSet()
+"""))
+silent('sweep-loop-fresh-carried-flag', ['C05', 'C03', 'C01'],
+       (LAB, 'TaskState.process_tasks', "        for task in tasks:\n", "        first = True\n        for task in tasks:\n            if first:\n                logger.debug('processing tasks')\n            first = False\n"),
+       note='a loop-carried flag that does not derive from the element is not a stale per-element value')
+silent('sweep-loop-fresh-previous-element', ['C05', 'C03', 'C01'],
+       (LAB, 'TaskState.process_tasks', "        for task in tasks:\n", "        previous = None\n        for task in tasks:\n            if previous is not None and previous is task:\n                logger.debug('same task twice in a row')\n            previous = task\n"),
+       note='remembering the previous element on purpose: read before the in-iteration definition')
+fire('sweep-mutate-while-iterating', ['C10', 'C11'], 'SWEEP.NO-MUTATE-WHILE-ITERATING',
+     (PROC, 'ProcessMonitor._get_process_info', "        except psutil.NoSuchProcess:\n            return None", "        except psutil.NoSuchProcess:\n            del self.active_process_events[start_event.task_name]\n            return None"))
+silent('sweep-mutate-snapshot', ['C10', 'C11'],
+       (PROC, 'ProcessMonitor._get_process_info', "        except psutil.NoSuchProcess:\n            return None", "        except psutil.NoSuchProcess:\n            del self.active_process_events[start_event.task_name]\n            return None"),
+       (PROC, 'ProcessMonitor.get_process_infos', "for start_event in self.active_process_events.values():", "for start_event in list(self.active_process_events.values()):"),
+       note='iterating a snapshot while removing stale entries is fine')
+fire('sweep-super-forward-dropped', ['C04', 'C05'], 'SWEEP.SUPER-FORWARD',
+     (PROC, 'SpawnProcessRunner.__init__', "super().__init__(context=context, storage=storage, max_workers=max_workers)", "super().__init__(context=context, storage=storage, max_workers=None)"))
+fire('sweep-default-mutable', ['C16', 'C01'], 'SWEEP.DEFAULTS-PER-CALL',
+     (PROC, 'ProcessRunner.__init__', "def __init__(self, *, context: LabContext, storage: Storage, max_workers: Optional[int]):", "def __init__(self, *, context: LabContext, storage: Storage, max_workers: Optional[int], results_map: dict = {}):"))
+silent('sweep-default-none-sentinel', ['C16', 'C01'],
+       (PROC, 'ProcessRunner.__init__', "def __init__(self, *, context: LabContext, storage: Storage, max_workers: Optional[int]):", "def __init__(self, *, context: LabContext, storage: Storage, max_workers: Optional[int], label: Optional[str] = None):"))
+fire('sweep-optional-truthiness', ['C04', 'C05'], 'SWEEP.OPTIONAL-BY-IDENTITY',
+     (PROC, 'ProcessExecutor.__init__', "self.max_workers = os.cpu_count() if max_workers is None else max_workers", "self.max_workers = max_workers if max_workers else os.cpu_count()"),
+     note='max_workers=0 would silently mean "all cores"')
+fire('sweep-handler-reads-unbound', ['C12', 'C06', 'C13'], 'SWEEP.HANDLER-READS-BOUND',
+     ('labtech/cache.py', 'BaseCache.save', "            storage.delete(task.cache_key)\n            raise", "            metadata_file.close()\n            storage.delete(task.cache_key)\n            raise"))
+silent('sweep-handler-reads-bound-before-try', ['C12', 'C06', 'C13'],
+       ('labtech/cache.py', 'BaseCache.save', "        try:\n            metadata_file = storage.file_handle", "        key = task.cache_key\n        try:\n            metadata_file = storage.file_handle"),
+       ('labtech/cache.py', 'BaseCache.save', "            storage.delete(task.cache_key)\n            raise", "            storage.delete(key)\n            raise"))
+fire('sweep-return-in-finally', ['C12', 'C10', 'C01'], 'SWEEP.NO-JUMP-IN-FINALLY',
+     ('labtech/runners/base.py', 'run_or_load_task', "    finally:\n        current_process.name = orig_process_name", "    finally:\n        current_process.name = orig_process_name\n        if use_cache:\n            return task_result"))
+fire('c13-daemon-attribute', ['C13'], 'C13.WORKER-NOT-DAEMON',
+     (PROC, 'ProcessExecutor._start_processes', "            process.start()", "            process.daemon = True\n            process.start()"))
+fire('c05-blocking-monitor-poll', ['C05', 'C11'], 'C05.POLLS-NONBLOCKING',
+     (PROC, 'ProcessMonitor._consume_monitor_queue', "self.process_event_queue.get_nowait()", "self.process_event_queue.get(timeout=0.1)"))
+silent('c05-nonblocking-get-false', ['C05', 'C11'],
+       (PROC, 'ProcessMonitor._consume_monitor_queue', "self.process_event_queue.get_nowait()", "self.process_event_queue.get(block=False)"))
+fire('c11-bounded-result-queue', ['C11'], 'C11.QUEUES-UNBOUNDED',
+     (PROC, 'ProcessExecutor.__init__', "multiprocessing.Manager().Queue(-1)", "multiprocessing.Manager().Queue(64)"))
+silent('c11-unbounded-default-queue', ['C11'],
+       (PROC, 'ProcessExecutor.__init__', "multiprocessing.Manager().Queue(-1)", "multiprocessing.Manager().Queue()"))
+fire('c11-monitor-terminates', ['C11', 'C10'], 'C11.WHO-MAY-REAP',
+     (PROC, 'ProcessMonitor._get_process_info', "        except psutil.NoSuchProcess:\n            return None", "        except psutil.NoSuchProcess:\n            return None\n        if process.status() == 'zombie':\n            process.wait(0)"))
+fire('c18-helper-deletes', ['C18'], 'C18.WRITES-STAY-HOME',
+     ('labtech/storage.py', 'LocalStorage.delete', "shutil.rmtree(key_path)", "ensure_dict_key_str(key, exception_type=StorageError)\n            shutil.rmtree(key_path)"),
+     ('labtech/storage.py', None, "from .types import Storage\n", "from .types import Storage\nfrom .utils import ensure_dict_key_str\n"),
+     ('labtech/utils.py', 'ensure_dict_key_str', "    return cast(str, value)", "    import os\n    os.remove(value)\n    return cast(str, value)"))
